@@ -23,6 +23,11 @@ def gen(rng, tier):
             e.add(b".strx", elfgen.SHT["STRTAB"], rng.choice([b"abc\0def\0", b"xyz", b"\xc3\0", b"a\0", b"\0a\0"]))
         e.with_shdrs = rng.random() < 0.9
         data, meta = e.build(rng)
+        if rng.random() < 0.2:               # relocation / note / string sections flagged SHF_COMPRESSED (typed views read the payload)
+            o_ = fileq.py_open("any", data)
+            for k, h in enumerate((fileq.py_shdrs(o_, data) if o_ else None) or []):
+                if h and h["sh_type"] in (3, 4, 7, 9) and rng.random() < 0.6:
+                    data = elfgen.patch(data, meta, "shdr", "sh_flags", h["sh_flags"] | 0x800, k)
         ln = len(data)
         little, cl = meta["little"], meta["cl"]
         fam = filegen.fam_for(rng, little)
